@@ -40,12 +40,16 @@ CLAUSES = {
     29: 'close() raised',
     30: 'C10_subset (selection): the spike ids stored by an extraction are an answer the selector may give for THAT '
         'extraction: per template min(max_n_spikes_per_template, spikes of the template inside the kept chunks) ids, all of '
-        'them spikes of that template inside the kept chunks (every ceil(n_chunks/20)-th chunk)',
+        'them spikes of that template inside the kept chunks (every ceil(n_chunks/20)-th chunk); since stage 4 also judged '
+        'by C17\'s checker select_spec_b on C17\'s kept chunks (strictly increasing ids that are spikes included), which by '
+        'C10_link_clause30 accepts exactly the arrays an admissible np.random.choice makes C17\'s route return',
 }
 TRUSTED = ['csv (text layer: quoting, delimiters), str()/repr()/int()/float() round trip of numbers (oracle: cells are typed tokens)',
            'np.save/np.load/np.memmap, pathlib.glob (order not relied on), the file system',
-           'SpikeSelector choice (the stored spike ids are taken as given: C17) and the per-template best channels (C05), '
-           'observed at the first load',
+           'np.random.choice inside SpikeSelector (the stored spike ids are read back and judged by clause 30 = C17\'s '
+           'statement; C10_link_selection / C10_link_windows prove the store for every admissible choice) and np.argsort inside '
+           'get_template (the per-template best channels are observed at the first load; C10_link_channels proves the stored '
+           'rows from C05\'s model for every sorting argsort)',
            'harness-side reading of foreign texts (datasets_c10.parse_file: csv.reader + int()/float() classification)']
 ASSUMES = ['field names are identifiers other than cluster_id (and other than `info`: cluster_info.tsv is never loaded)',
            'saved strings are not numeric (they start with a letter other than i, I, n, N); the empty string is dropped like None',
